@@ -202,6 +202,33 @@ def run_records(case):
             ar2 = dns.rdata.from_wire(rdclass, rdtype, ws[0], 0, len(ws[0]), o)
             if ar != ar2 or hash(ar) != hash(ar2):
                 raise Violation("equality", f"{tname}: two identical relative records differ", "releq:" + tname)
+            # the relative name "x" (under origin o) is not the absolute name "x.": rewrite the
+            # first embedded name that lies strictly beneath o as <prefix>. (absolute) and decode
+            # with the same origin; the two records must not compare equal
+            o_l = list(o.labels)
+            if len(o_l) > 1:
+                pos = C.name_positions(rdtype, ws[0])
+                alt = None
+                for s_, e_ in pos:
+                    info = W.read_name(ws[0], s_)
+                    labs = list(info.labels)
+                    if len(labs) > len(o_l) and [W.lower(x) for x in labs[-len(o_l):]] == [W.lower(x) for x in o_l]:
+                        pre = labs[: len(labs) - len(o_l)]
+                        alt = ws[0][:s_] + W.encode_name(pre + [b""]) + ws[0][e_:]
+                        break
+                if alt is not None:
+                    try:
+                        aalt = dns.rdata.from_wire(rdclass, rdtype, alt, 0, len(alt), o)
+                    except dns.exception.FormError:
+                        aalt = None
+                    if aalt is not None and aalt.to_wire(origin=o) != ar.to_wire(origin=o):
+                        classes.append("relative-vs-absolute-twin")
+                        if aalt == ar or ar == aalt:
+                            raise Violation(
+                                "equality",
+                                f"{tname}: a record holding the relative name {b'.'.join(pre)!r} equals one holding the absolute name {b'.'.join(pre)!r}. (wires {ar.to_wire(origin=o).hex()} vs {aalt.to_wire(origin=o).hex()})",
+                                "rel-abs-twin:" + tname,
+                            )
             _walk_immutable(ar, tname + "(rel)", set())
     # 4. a different class or type is never equal
     g = dns.rdata.GenericRdata(rdclass, 65280, a.to_wire())
@@ -660,7 +687,7 @@ def set_cases(draw):
 def parts(tier):
     return [
         Part("records", run_records, strategy=record_cases(), n={"quick": 14000, "thorough": 400000},
-             require={"equal-differ-in-case": 300, "relative": 100, "slots-walked": 5000},
+             require={"equal-differ-in-case": 300, "relative": 100, "slots-walked": 5000, "relative-vs-absolute-twin": 50},
              shards={"quick": 8, "thorough": 16}),
         Part("sets", run_sets, strategy=set_cases(), n={"quick": 6000, "thorough": 200000},
              require={"dup": 500, "alias": 500, "intruder": 300, "singleton": 100,
